@@ -65,6 +65,7 @@ contract(DISC + "Discover._get_cloud",
          notes="used at call sites")
 
 contract("msmart.base_device.Device.authenticate#cloud",
+         verified_by=["msmart.base_device.Device.authenticate"],
          assumed="call-site view of Device.authenticate for credentials that are JSON values (uninterpreted); the body is verified by the contract msmart.base_device.Device.authenticate with bytes credentials",
          params={"self": "obj:msmart.base_device.Device", "token": "ext:json", "key": "ext:json"},
          emits={"auth": "(token, key)"},
